@@ -155,7 +155,7 @@ fn one_corruption(ctx: &mut Ctx) {
     let kind: &str = *gen::t(|t| {
         t.pick(&[
             "bit-flip", "bit-flip-header", "bit-flip-payload", "overwrite", "payload-swap", "trailing-garbage", "truncate", "header-tamper-recomputed", "magic-swap-and-header-change", "truncate-at-chunk-boundary",
-            "server-wrong-bytes", "server-error-page", "server-short-body", "verify-header-wrong", "verify-header-right",
+            "server-wrong-bytes", "server-error-page", "server-short-body", "verify-header-wrong", "verify-header-right", "header-change-and-checksum-cut-off", "server-stall-with-timeout",
         ])
     });
     let mut what = String::new();
@@ -266,6 +266,48 @@ fn one_corruption(ctx: &mut Ctx) {
             header_tamper = true;
             what = "header re-encoded with one changed field and a recomputed checksum; --verify-header carries the original checksum".to_string();
         }
+        "header-change-and-checksum-cut-off" => {
+            // two things at once: a structurally valid header with one changed field, and the
+            // file ends inside (mostly: exactly at the start of) the stored header checksum, so
+            // that a reader which tolerates a short read there has nothing to compare with.
+            // Seeds may well provide every chunk, the chunk data is not needed for a success.
+            let mut d = ra.dict.clone();
+            match gen::draw(4) {
+                0 if d.rebuild_order.len() >= 2 => {
+                    let l = d.rebuild_order.len();
+                    d.rebuild_order.swap(0, l - 1);
+                    if d.rebuild_order == ra.dict.rebuild_order {
+                        d.application_version.push('x');
+                    }
+                }
+                1 => d.source_checksum[0] ^= 1,
+                2 => d.source_total_size += 1,
+                _ => d.application_version.push('x'),
+            }
+            let dict = encode_dict(&d, &EncodeStyle::default());
+            let mut p = build_header(MAGIC, &dict, None);
+            let cut = if gen::chance(2, 3) { 64 } else { 1 + gen::draw(64) as usize };
+            p.truncate(p.len() - cut);
+            presented = p;
+            in_header = true;
+            if gen::chance(1, 2) && f.level2 {
+                extra.verify_header = Some(gen::hex(&ra.header_checksum));
+            }
+            what = format!("header re-encoded with one changed field, file cut {} bytes before the end of the header (inside the stored header checksum)", cut);
+        }
+        "server-stall-with-timeout" => {
+            // the server goes silent in the middle of a chunk transfer; --http-timeout ends the
+            // wait. Whatever the clone makes of that, it must not be a success with chunks missing
+            if !f.http || !f.level2 {
+                return;
+            }
+            let at = 2 + gen::draw(4) as usize;
+            let mut script = vec![None; at];
+            script.push(Some(NetFault::Stall(gen::draw(5000) as usize)));
+            extra.net_script = script;
+            extra.timeout = Some(1 + gen::draw(5) as u64);
+            what = format!("server stalls for ever in the body of request #{}, --http-timeout {}", at, extra.timeout.unwrap());
+        }
         "server-wrong-bytes" | "server-error-page" | "server-short-body" => {
             if !f.http {
                 return;
@@ -312,6 +354,8 @@ fn one_corruption(ctx: &mut Ctx) {
         "magic-swap-and-header-change" => "fault:MagicSwapHeaderChange",
         "header-tamper-recomputed" => "fault:HeaderTamper",
         "server-wrong-bytes" | "server-error-page" | "server-short-body" => "fault:LyingServer",
+        "header-change-and-checksum-cut-off" => "fault:HeaderChangeChecksumCutOff",
+        "server-stall-with-timeout" => "fault:ServerStall",
         _ => "verify-header-option",
     });
     let src = &f.made.source;
